@@ -14,11 +14,22 @@ pub fn render_ty(ty: &TyExpr, m: &Module) -> String {
         }
         TyExpr::Wrap(w, t) => format!("{}<{}>", w, render_ty(t, m)),
         TyExpr::User(i, args) => {
-            let id = &m.types[*i].ident;
-            if args.is_empty() {
+            let td = &m.types[*i];
+            let id = &td.ident;
+            let mut all: Vec<String> = td.lifetimes.iter().map(|_| "'static".to_string()).collect();
+            let consts: Vec<String> = td.consts.iter().map(|_| "2".to_string()).collect();
+            let tys: Vec<String> = args.iter().map(|t| render_ty(t, m)).collect();
+            if td.const_first {
+                all.extend(consts);
+                all.extend(tys);
+            } else {
+                all.extend(tys);
+                all.extend(consts);
+            }
+            if all.is_empty() {
                 id.clone()
             } else {
-                format!("{}<{}>", id, args.iter().map(|t| render_ty(t, m)).collect::<Vec<_>>().join(", "))
+                format!("{}<{}>", id, all.join(", "))
             }
         }
         TyExpr::Param(p) => p.clone(),
@@ -28,6 +39,10 @@ pub fn render_ty(ty: &TyExpr, m: &Module) -> String {
                 n.to_string()
             } else if *n == "[_]" {
                 format!("[{}]", render_ty(&args[0], m))
+            } else if *n == "[_; N]" {
+                format!("[{}; N]", render_ty(&args[0], m))
+            } else if *n == "&" {
+                format!("&{}", render_ty(&args[0], m))
             } else if *n == "std::borrow::Cow" {
                 format!("std::borrow::Cow<'static, {}>", render_ty(&args[0], m))
             } else {
@@ -115,27 +130,45 @@ fn render_field(f: &Field, m: &Module, indent: &str, out: &mut String) {
 }
 
 fn generics_decl(td: &TypeDef, m: &Module) -> String {
-    if td.params.is_empty() {
+    let mut all: Vec<String> = td.lifetimes.clone();
+    let consts: Vec<String> = td.consts.iter().map(|c| if td.const_default && !td.const_first { format!("const {c}: usize = 2") } else { format!("const {c}: usize") }).collect();
+    let tys: Vec<String> = td
+        .params
+        .iter()
+        .map(|p| match &p.default {
+            Some(d) => format!("{} = {}", p.name, render_ty(d, m)),
+            None => p.name.clone(),
+        })
+        .collect();
+    // (a defaulted type parameter may not be followed by a const parameter without default, so
+    // consts go first when a default exists)
+    if td.const_first {
+        all.extend(consts);
+        all.extend(tys);
+    } else {
+        all.extend(tys);
+        all.extend(consts);
+    }
+    if all.is_empty() {
         return String::new();
     }
-    format!(
-        "<{}>",
-        td.params
-            .iter()
-            .map(|p| match &p.default {
-                Some(d) => format!("{} = {}", p.name, render_ty(d, m)),
-                None => p.name.clone(),
-            })
-            .collect::<Vec<_>>()
-            .join(", ")
-    )
+    format!("<{}>", all.join(", "))
 }
 
 fn generics_use(td: &TypeDef) -> String {
-    if td.params.is_empty() {
+    let mut all: Vec<String> = td.lifetimes.clone();
+    let tys: Vec<String> = td.params.iter().map(|p| p.name.clone()).collect();
+    if td.const_first {
+        all.extend(td.consts.iter().cloned());
+        all.extend(tys);
+    } else {
+        all.extend(tys);
+        all.extend(td.consts.iter().cloned());
+    }
+    if all.is_empty() {
         return String::new();
     }
-    format!("<{}>", td.params.iter().map(|p| p.name.clone()).collect::<Vec<_>>().join(", "))
+    format!("<{}>", all.join(", "))
 }
 
 pub fn render_type(td: &TypeDef, m: &Module) -> String {
@@ -181,6 +214,10 @@ pub fn render_type(td: &TypeDef, m: &Module) -> String {
     }
     if let Some(t) = &a.type_override {
         ts.push(format!("type = {}", lit(t)));
+    }
+    let concrete: Vec<String> = td.params.iter().filter_map(|p| p.concrete.as_ref().map(|c| format!("{} = {}", p.name, render_ty(c, m)))).collect();
+    if !concrete.is_empty() {
+        ts.push(format!("concrete({})", concrete.join(", ")));
     }
     if !m.serde {
         ts.extend(serde.drain(..));
